@@ -28,6 +28,12 @@ def op_templates(d, cfg, prop):
     ops.append({'op': 'w.prop', 'name': 'eccentricity', 'kind': 'eccentricity', 'args': {'value': val('eccentricity')}})
     ops.append({'op': 'o.set_states', 'targets': [0], 'sig': 'instance', 'lists': {'eccentricity': [val('eccentricity')]}})
     ops.append({'op': 'w.set_state', 'args': {'eccentricity': val('eccentricity')}, 'target': 'host', 'sig': 'instance'})
+    # the stellar orbit: the world's own orbit around a star host, the host's heliocentric orbit around a planet host
+    ops.append({'op': 'stellar', 'how': 'w.prop', 'field': 'distance', 'target': 0, 'sig': 'instance', 'args': {'value': val('semi_major_axis')}})
+    ops.append({'op': 'stellar', 'how': 'o.method', 'field': 'eccentricity', 'target': 0, 'sig': 'name', 'args': {'value': val('eccentricity')}})
+    if cfg['host'] != 'star':
+        ops.append({'op': 'stellar', 'how': 'o.set_state', 'field': 'orbital_period', 'target': 'host', 'sig': 'instance',
+                    'args': {'value': val('orbital_period')}})
     if prop == 'C13':
         ops.append({'op': 'w.prop', 'name': 'obliquity', 'kind': 'obliquity', 'args': {'value': val('obliquity')}})
         ops.append({'op': 'w.set_state', 'args': {'obliquity': val('obliquity')}})
